@@ -70,6 +70,7 @@ func cmdRun(args []string) int {
 	hang := fs.Bool("hang", false, "budget overrun is a violation")
 	budget := fs.Int64("budget", 20_000_000, "instruction budget per path")
 	prof := fs.String("cpuprofile", "", "write a CPU profile")
+	params := fs.String("params", "", "k=v,k=v harness parameters")
 	fs.Parse(args)
 	if *prof != "" {
 		f, _ := os.Create(*prof)
@@ -95,6 +96,13 @@ func cmdRun(args []string) int {
 	cfg.LazyMake = *lazy
 	cfg.HangIsViolation = *hang
 	cfg.InstrBudget = *budget
+	for _, kv := range strings.Split(*params, ",") {
+		if i := strings.IndexByte(kv, '='); i > 0 {
+			var v int64
+			fmt.Sscan(kv[i+1:], &v)
+			cfg.Params[kv[:i]] = v
+		}
+	}
 	e := sym.NewEngine(p.Prog, cfg)
 	if err := e.Bind(p, fn); err != nil {
 		fmt.Fprintln(os.Stderr, err)
